@@ -3,7 +3,7 @@
    proofs: ProtocolCount.v, ProtocolInv.v. *)
 From Coq Require Import List ZArith NArith Bool Lia Permutation Sorting.Sorted SetoidList SetoidPermutation RelationClasses.
 From Arc Require Import Lib.AList Buffer.Model.
-From Arc Require Export Buffer.KernelProofs Buffer.ProtocolCount Buffer.ProtocolInv.
+From Arc Require Export Buffer.KernelProofs Buffer.KeyProofs Buffer.ProtocolCount Buffer.ProtocolInv.
 Import ListNotations.
 Open Scope Z_scope.
 
@@ -29,14 +29,16 @@ Qed.
 
 Definition good_batch (b : batch) : Prop := wf_batch b /\ batch_times_ok b /\ (0 < batch_rows b)%nat.
 
-(* batches with the same column signature agree on the type of every column they share
-   (true for the column pools of the property: plain names; not in general, because the
-   signature skips "" / "_..." names and is an un-escaped string -- see C04) *)
+(* batches with the same buffer routing key agree on the type of every column they share - a
+   THEOREM about bufferSchemaKey (KeyProofs.key_sound), no longer a hypothesis on the inputs *)
 Definition sig_sound (bs : list batch) : Prop :=
-  forall b1 b2, In b1 bs -> In b2 bs -> column_signature b1 = column_signature b2 -> types_agree [b1; b2].
+  forall b1 b2, In b1 bs -> In b2 bs -> buffer_schema_key b1 = buffer_schema_key b2 -> types_agree [b1; b2].
+
+Lemma sig_sound_wf (bs : list batch) : Forall wf_batch bs -> sig_sound bs.
+Proof. intros Hw b1 b2 H1 H2 E. rewrite Forall_forall in Hw. apply key_sound; auto. Qed.
 
 Lemma good_task_flush H thr (k : bkey) (items : list bitem) : 0 < H ->
-  items_ok column_signature k items ->
+  items_ok buffer_schema_key k items ->
   (forall it, In it items -> good_batch (it_b it)) -> sig_sound (map it_b items) ->
   exists files, bflush H thr (map it_b items) = FlOk files /\
     NoDup (map fst files) /\ Forall (file_ok H) files /\
@@ -65,15 +67,19 @@ Section Inst.
   Variables (H thr : Z).
   Hypothesis HH : 0 < H.
 
-  Notation reach_ctl := (reach_ctl N.eqb bytes_eqb column_signature batch_rows (bflush H thr)).
-  Notation reach_shape := (reach_shape N.eqb bytes_eqb column_signature batch_rows (bflush H thr) N_eqb_spec' bytes_eqb_spec).
-  Notation conservation := (conservation N.eqb bytes_eqb column_signature batch_rows (bflush H thr) N_eqb_spec' N.eq_dec batch_dec).
-  Notation close_complete := (close_complete N.eqb bytes_eqb column_signature batch_rows (bflush H thr) N_eqb_spec' N.eq_dec batch_dec).
-  Notation reach_drop := (reach_drop N.eqb bytes_eqb column_signature batch_rows (bflush H thr)).
-  Notation reach_full := (reach_full N.eqb bytes_eqb column_signature batch_rows (bflush H thr)).
+  Notation reach_ctl := (reach_ctl N.eqb bytes_eqb buffer_schema_key batch_rows (bflush H thr)).
+  Notation reach_shape := (reach_shape N.eqb bytes_eqb buffer_schema_key batch_rows (bflush H thr) N_eqb_spec' bytes_eqb_spec).
+  Notation conservation := (conservation N.eqb bytes_eqb buffer_schema_key batch_rows (bflush H thr) N_eqb_spec' N.eq_dec batch_dec).
+  Notation close_complete := (close_complete N.eqb bytes_eqb buffer_schema_key batch_rows (bflush H thr) N_eqb_spec' N.eq_dec batch_dec).
+  Notation reach_drop := (reach_drop N.eqb bytes_eqb buffer_schema_key batch_rows (bflush H thr)).
+  Notation reach_full := (reach_full N.eqb bytes_eqb buffer_schema_key batch_rows (bflush H thr)).
 
-  Definition inputs_ok (s : bst) : Prop :=
-    (forall it, In it (accepted s) -> good_batch (it_b it)) /\ sig_sound (map it_b (accepted s)).
+  Definition inputs_ok (s : bst) : Prop := forall it, In it (accepted s) -> good_batch (it_b it).
+
+  Lemma inputs_sound (s : bst) : inputs_ok s -> sig_sound (map it_b (accepted s)).
+  Proof.
+    intros Hg. apply sig_sound_wf. apply Forall_forall. intros b Hb. apply in_map_iff in Hb. destruct Hb as [it [<- Hin]]. apply (Hg it Hin).
+  Qed.
 
   Lemma sig_sound_incl (l1 l2 : list batch) : incl l1 l2 -> sig_sound l2 -> sig_sound l1.
   Proof. intros Hi Hs b1 b2 H1 H2. apply Hs; apply Hi; assumption. Qed.
@@ -101,7 +107,7 @@ Section Inst.
       NoDup (map fst (s_files r)) /\ Forall (file_ok H) (s_files r) /\
       PermutationA row_equiv (flat_map (fun f => rows_of (snd f)) (s_files r)) (flat_map rows_of (map it_b (s_items r))).
   Proof.
-    intros Hr Hq [Hgood Hss] r Hin Hfull.
+    intros Hr Hq Hgood r Hin Hfull. pose proof (inputs_sound s Hgood) as Hss.
     destruct (reach_shape _ _ _ Hr) as [_ [_ [_ [Hs _]]]]. rewrite Forall_forall in Hs. destruct (Hs r Hin) as [Hio [files [Ef [Hf1 _]]]].
     rewrite (Hf1 Hfull).
     assert (Hsub : incl (s_items r) (accepted s)).
@@ -132,7 +138,7 @@ Section Inst.
     destruct (close_complete _ _ _ Hr Hq1 Hfix Hph Hcl) as [Hb [Hqe [Hz Hperm]]].
     pose proof (reach_drop _ _ _ Hr Hq) as Hd. pose proof (reach_full _ _ _ Hr Hq2) as Hfull.
     destruct (reach_shape _ _ _ Hr) as [_ [_ [_ [Hs Hdo]]]].
-    destruct Hin as [Hgood Hss].
+    pose proof Hin as Hgood. pose proof (inputs_sound s Hin) as Hss. clear Hin.
     assert (Hdrop : dropped s = []).
     { assert (Hnone : forall p, In p (dropped s) -> False); [|destruct (dropped s) as [|p dl]; [reflexivity|exfalso; apply (Hnone p); left; reflexivity]].
       intros [t r] Hi.
@@ -154,10 +160,33 @@ Section Inst.
     transitivity (flat_map rows_of (map it_b (stored_items s))).
     - unfold stored_kfiles, stored_items. rewrite map_flat_map. rewrite !flat_map_flat_map.
       apply permA_flat_map. intros r Hin. rewrite (Hfull r Hin). rewrite flat_map_map. cbn [snd].
-      destruct (stored_files_ok cfg ls s Hr Hq1 (conj Hgood Hss) r Hin (Hfull r Hin)) as [_ [_ [_ R]]]. exact R.
+      destruct (stored_files_ok cfg ls s Hr Hq1 Hgood r Hin (Hfull r Hin)) as [_ [_ [_ R]]]. exact R.
     - apply Permutation_PermutationA; [typeclasses eauto|]. apply Permutation_flat_map. apply Permutation_map. symmetry. exact Hp2.
   Qed.
 
+  (* the primary statement of C03 for the code as it is: explicit flush + Close with no concurrent
+     writer, no storage failure, no queue overflow -> every accepted row is stored exactly once,
+     every file is in the directory of the hour of all its rows, time-sorted, one file per hour and flush *)
+  Theorem accepted_rows_stored_once cfg ls (s : bst) : brun H thr cfg binit ls = Some s ->
+    forallb (fun l : blabel => no_replay l && outcome_ok l) ls = true ->
+    fix_drain cfg = true -> phase s = PClosed -> clean s = true -> inputs_ok s ->
+    (forall t r, In (t, r) (dropped s) -> r <> DQueueFull) ->
+    Permutation (accepted s) (stored_items s) /\
+    PermutationA row_equiv (flat_map (fun f => rows_of (snd (snd f))) (stored_kfiles s)) (flat_map rows_of (map it_b (accepted s))) /\
+    (forall r, In r (stored s) ->
+       (forall it, In it (s_items r) -> it_key it = s_key r) /\ NoDup (map fst (s_files r)) /\ Forall (file_ok H) (s_files r)) /\
+    buffers s = [] /\ queue s = [] /\ busy s = [] /\ dropped s = [].
+  Proof.
+    intros Hr Hq Hfix Hph Hcl Hin Hnq.
+    destruct (flush_close_stores_all cfg ls s Hr Hq Hfix Hph Hcl Hin Hnq) as [Hd [Hb [Hqe [Hz [Hp Hrows]]]]].
+    assert (Hq1 : forallb (@no_replay bkey batch) ls = true).
+    { clear -Hq. induction ls; cbn in *; [reflexivity|]. apply andb_true_iff in Hq. destruct Hq as [Ha Hb]. apply andb_true_iff in Ha. rewrite (proj1 Ha). cbn. auto. }
+    assert (Hq2 : forallb (@outcome_ok bkey batch) ls = true).
+    { clear -Hq. induction ls; cbn in *; [reflexivity|]. apply andb_true_iff in Hq. destruct Hq as [Ha Hb]. apply andb_true_iff in Ha. rewrite (proj2 Ha). cbn. auto. }
+    pose proof (reach_full _ _ _ Hr Hq2) as Hfull.
+    split; [exact Hp|]. split; [exact Hrows|]. split; [|tauto].
+    intros r Hrin. destruct (stored_files_ok cfg ls s Hr Hq1 Hin r Hrin (Hfull r Hrin)) as [A [Bn [C _]]]. tauto.
+  Qed.
 End Inst.
 
 (* ------------------------------------------------------------------ *)
@@ -199,18 +228,15 @@ Definition thr_real : Z := 4096.
 
 Definition wit_batches : list batch := [row1 10 1; row1 20 2; row1 30 3; row1 40 4].
 Definition wit_cfg (fix_ : bool) : config := {| max_size := 1; queue_cap := 10; wal_on := false; fix_drain := fix_ |}.
-Definition wit_labels : list (label N batch) := close_witness_labels 1%N wit_batches 0.
+Definition wit_labels : list (label N batch) := close_witness_labels false 1%N wit_batches 0.
 
 Lemma wit_inputs (s : st N batch (list N) (Z * batch)) : map it_b (accepted s) = wit_batches -> inputs_ok s.
 Proof.
-  intros E. split.
-  - intros it Hin. assert (In (it_b it) wit_batches) by (rewrite <- E; apply in_map; exact Hin).
-    unfold wit_batches in H. cbn in H. destruct H as [<-|[<-|[<-|[<-|[]]]]]; apply row1_good; unfold int64, two63; lia.
-  - rewrite E. apply same_schema_sound. intros b1 b2 H1 H2. unfold wit_batches in *. cbn in H1, H2.
-    destruct H1 as [<-|[<-|[<-|[<-|[]]]]]; destruct H2 as [<-|[<-|[<-|[<-|[]]]]]; reflexivity.
+  intros E it Hin. assert (In (it_b it) wit_batches) by (rewrite <- E; apply in_map; exact Hin).
+  unfold wit_batches in H. cbn in H. destruct H as [<-|[<-|[<-|[<-|[]]]]]; apply row1_good; unfold int64, two63; lia.
 Qed.
 
-(* Close as it is: with one worker still flushing and three size-triggered tasks queued, a Close
+(* the Close BEFORE 2ed39c6 (fix_drain = false): with one worker still flushing and three size-triggered tasks queued, a Close
    that nobody interferes with completes and leaves the three queued batches unwritten *)
 Theorem close_refuted :
   exists ls s, brun Hreal thr_real (wit_cfg false) binit ls = Some s /\
